@@ -46,6 +46,11 @@ def fg_dops() -> List[Dict[str, Any]]:
         dops.append({"kind": "eopfield", "name": "F_" + typ, "of": "S_" + typ})
         dops.append({"kind": "table", "name": "T_" + typ, "key_dop": "u8",
                      "rows": [{"name": "row1", "key": 1, "struct": "S_" + typ}]})
+        # nesting: structure in structure, field of such structures, field (of one item) whose items contain a field
+        dops.append({"kind": "struct", "name": "S2_" + typ, "params": [{"t": "VALUE", "name": "in", "dop": "S_" + typ}]})
+        dops.append({"kind": "eopfield", "name": "F2_" + typ, "of": "S2_" + typ})
+        dops.append({"kind": "struct", "name": "S3_" + typ, "params": [{"t": "VALUE", "name": "fl2", "dop": "F_" + typ}]})
+        dops.append({"kind": "eopfield", "name": "F3_" + typ, "of": "S3_" + typ})
     return dops
 
 
@@ -55,8 +60,14 @@ def payload_params(svc: Dict[str, Any], layer: str, msg: str) -> List[Dict[str, 
         return [{"t": "VALUE", "name": "id", "dop": TYPE_DOPS[typ]["name"]}]
     if layout == "struct":
         return [{"t": "VALUE", "name": "st", "dop": "S_" + typ}]
-    if layout == "field":
+    if layout == "field" or layout in ("f1_0", "f2_0", "f3_0", "f3_1", "f3_2"):
         return [{"t": "VALUE", "name": "fl", "dop": "F_" + typ}]
+    if layout == "fnest":
+        return [{"t": "VALUE", "name": "fl", "dop": "F2_" + typ}]
+    if layout == "ffield":
+        return [{"t": "VALUE", "name": "fl", "dop": "F3_" + typ}]
+    if layout == "sstruct":
+        return [{"t": "VALUE", "name": "st", "dop": "S2_" + typ}]
     if layout == "tstruct":
         kid = f"{layer}.{msg}.tk"
         return [{"t": "TABLE-KEY", "name": "tk", "table": "T_" + typ, "id": kid},
@@ -73,7 +84,10 @@ def out_param_path(svc: Dict[str, Any], tgt: str) -> Dict[str, str]:
         return {"snref": "id"}
     if layout == "toppath":
         return {"snpathref": "id"}
-    return {"snpathref": {"struct": "st.id", "field": "fl.id", "tstruct": "ts.id"}[layout]}
+    if layout in ("f1_0", "f2_0", "f3_0", "f3_1", "f3_2"):
+        return {"snpathref": "fl.id"}
+    return {"snpathref": {"struct": "st.id", "field": "fl.id", "tstruct": "ts.id", "fnest": "fl.in.id", "sstruct": "st.in.id",
+                          "ffield": "fl.fl2.id"}[layout]}
 
 
 def service_parts(svc: Dict[str, Any], layer: str, own: bool, dop_layer: str):
